@@ -190,7 +190,7 @@ func c07Classes(small bool) map[string][]c07Sc {
 							if i == a {
 								it.Act, it.At = act, pi%3
 							}
-						}), Red: c07Red{Stop: -1, End: 1}, Expect: []string{exp}})
+						}), Red: c07Red{Stop: -1, End: 1 + pi%2}, Expect: []string{exp}})
 				}
 			}
 			for _, early := range []bool{true, false} {
@@ -200,7 +200,7 @@ func c07Classes(small bool) map[string][]c07Sc {
 						exp = "cancelnil"
 					}
 					add(c07Sc{Class: "reducer-cancel", Entry: e, N: n, Workers: w, GenPanicAt: -1,
-						Items: c07Items(n, nil), Red: c07Red{Stop: n / 2, Act: act, ActEarly: early, End: 1}, Expect: []string{exp}})
+						Items: c07Items(n, nil), Red: c07Red{Stop: n / 2, Act: act, ActEarly: early, End: 1 + n%2}, Expect: []string{exp}})
 				}
 			}
 		}
